@@ -445,11 +445,13 @@ Section C01.
 
   Let fch := consensus_map Z.eqb (fun _ : N => Some (two_f_plus_1 F)) (agg_map fchain_kv aos).
 
+  (* the off-ramp map is agreed at the destination's f for every key (fixes/F26.patch) *)
   Lemma get_consensus_inv :
-    c_fchain c = fch /\ (exists fd, alookup dest fch = Some fd) /\
+    c_fchain c = fch /\
+    (exists fd, alookup dest fch = Some fd /\
+       c_offramp c = consensus_map N.eqb (fun _ : N => Some (two_f_plus_1 fd)) (agg_map offramp_kv aos)) /\
     c_roots c = consensus_map root_eqb (thr_2f1 fch) (agg_map roots_kv aos) /\
     c_onramp c = consensus_map N.eqb (thr_2f1 fch) (agg_map onramp_kv aos) /\
-    c_offramp c = consensus_map N.eqb (thr_2f1 fch) (agg_map offramp_kv aos) /\
     c_rmn c = consensus_map N.eqb (thr_2f1 fch) [(dest, map snd (votes (rmn_kv dest) aos dest))].
   Proof.
     pose proof (one_vote dest) as OV. destruct OV as [_ [_ [_ [_ [_ [_ [_ [_ [_ Hr]]]]]]]]].
@@ -457,7 +459,7 @@ Section C01.
     destruct (alookup dest fch) as [fd|] eqn:E; [|discriminate].
     inversion Hcons; subst c. cbn [c_fchain c_roots c_onramp c_offramp c_rmn aggregate a_roots a_onramp a_offramp a_rmn].
     cbn [aggregate a_rmn] in Hr. rewrite Hr.
-    repeat split. exists fd. reflexivity.
+    split; [reflexivity|]. split; [exists fd; split; reflexivity|]. repeat split.
   Qed.
 
   Lemma fch_keys_nodup : NoDup (map fst fch).
@@ -517,14 +519,24 @@ Section C01.
     (forall v, alookup k (c_onramp c) = Some v <->
        exists f, alookup k (c_fchain c) = Some f /\ agreed_value onramp_kv aos k (two_f_plus_1 f) v) /\
     (forall v, alookup k (c_offramp c) = Some v <->
-       exists f, alookup k (c_fchain c) = Some f /\ agreed_value offramp_kv aos k (two_f_plus_1 f) v) /\
+       exists fd, alookup dest (c_fchain c) = Some fd /\ agreed_value offramp_kv aos k (two_f_plus_1 fd) v) /\
     (forall v, alookup k (c_rmn c) = Some v <->
        exists f, alookup k (c_fchain c) = Some f /\ agreed_value (rmn_kv dest) aos k (two_f_plus_1 f) v).
   Proof.
-    destruct get_consensus_inv as [Hf [_ [-> [-> [-> Hr]]]]].
+    destruct get_consensus_inv as [Hf [[fdd [Hdd Hoff]] [-> [-> Hr]]]].
     split; [intros v; apply (field_iff roots_kv root_eqb root_eqb_reflect); exact one_roots|].
     split; [intros v; apply (field_iff onramp_kv N.eqb N_eqb_reflect); exact one_onramp|].
-    split; [intros v; apply (field_iff offramp_kv N.eqb N_eqb_reflect); exact one_offramp|].
+    split.
+    { intros v. rewrite Hoff, Hf.
+      assert (Hin : alookup k (consensus_map N.eqb (fun _ : N => Some (two_f_plus_1 fdd)) (agg_map offramp_kv aos)) = Some v <->
+                    In (k, v) (consensus_map N.eqb (fun _ : N => Some (two_f_plus_1 fdd)) (agg_map offramp_kv aos))).
+      { split; [apply alookup_In|apply alookup_NoDup_In, consensus_map_keys_nodup, agg_map_keys_nodup]. }
+      rewrite Hin. rewrite (field_consensus_iff offramp_kv N.eqb N_eqb_reflect _ aos k v NDo one_offramp).
+      - unfold agreed_value. split.
+        + intros [thr [Ht H]]. inversion Ht; subst. exists fdd. split; [exact Hdd|exact H].
+        + intros [fd' [Hfd' H]]. rewrite Hdd in Hfd'. inversion Hfd'; subst fd'.
+          exists (two_f_plus_1 fdd). split; [reflexivity|exact H].
+      - intros k' t Ht. inversion Ht; subst. apply two_f_plus_1_positive. }
     intros v. rewrite Hr, Hf. cbn [consensus_map].
     pose proof (votes_one_per_oracle (rmn_kv dest) aos dest NDo one_rmn) as NDv.
     assert (Hk : forall o k' v', reported (rmn_kv dest) aos o k' v' -> k' = dest).
@@ -590,23 +602,33 @@ Section C01_byz.
        honest_support (fun o => reported roots_kv aos o k v) B (Z.to_nat f + 1)) /\
     (forall v, alookup k (c_onramp c) = Some v ->
        honest_support (fun o => reported onramp_kv aos o k v) B (Z.to_nat f + 1)) /\
-    (forall v, alookup k (c_offramp c) = Some v ->
-       honest_support (fun o => reported offramp_kv aos o k v) B (Z.to_nat f + 1)) /\
     (forall v, alookup k (c_rmn c) = Some v ->
        honest_support (fun o => reported (rmn_kv dest) aos o k v) B (Z.to_nat f + 1)).
   Proof.
     intros Hf Hlt NDB HB.
     pose proof (fchain_positive retry roles known dest aos Hvalid F c Hcons k f Hf) as Hpos.
-    destruct (per_chain_iff retry roles known dest aos Hvalid F c Hcons k) as [H1 [H2 [H3 H4]]].
+    destruct (per_chain_iff retry roles known dest aos Hvalid F c Hcons k) as [H1 [H2 [_ H4]]].
     repeat split; intros v Hv.
     - apply H1 in Hv. destruct Hv as [f' [Hf' [Hs _]]]. rewrite Hf in Hf'. inversion Hf'; subst f'.
       apply (supported_minus_byzantine _ f B); try assumption; lia.
     - apply H2 in Hv. destruct Hv as [f' [Hf' [Hs _]]]. rewrite Hf in Hf'. inversion Hf'; subst f'.
       apply (supported_minus_byzantine _ f B); try assumption; lia.
-    - apply H3 in Hv. destruct Hv as [f' [Hf' [Hs _]]]. rewrite Hf in Hf'. inversion Hf'; subst f'.
-      apply (supported_minus_byzantine _ f B); try assumption; lia.
     - apply H4 in Hv. destruct Hv as [f' [Hf' [Hs _]]]. rewrite Hf in Hf'. inversion Hf'; subst f'.
       apply (supported_minus_byzantine _ f B); try assumption; lia.
+  Qed.
+
+  (* off-ramp next numbers (destination data, fixes/F26.patch): at the DESTINATION's f, for every source key k —
+     any B of at most f_dest oracles leaves f_dest + 1 reporters outside B *)
+  Theorem byzantine_offramp fd B :
+    alookup dest (c_fchain c) = Some fd -> (fd < 2^63)%Z -> NoDup B -> (length B <= Z.to_nat fd)%nat ->
+    forall k v, alookup k (c_offramp c) = Some v ->
+      honest_support (fun o => reported offramp_kv aos o k v) B (Z.to_nat fd + 1).
+  Proof.
+    intros Hf Hlt NDB HB k v Hv.
+    pose proof (fchain_positive retry roles known dest aos Hvalid F c Hcons dest fd Hf) as Hpos.
+    destruct (per_chain_iff retry roles known dest aos Hvalid F c Hcons k) as [_ [_ [H3 _]]].
+    apply H3 in Hv. destruct Hv as [f' [Hf' [Hs _]]]. rewrite Hf in Hf'. inversion Hf'; subst f'.
+    apply (supported_minus_byzantine _ fd B); try assumption; lia.
   Qed.
 
   (* hence: if every oracle outside B that reports a root for k reports h, the agreed root (if any) is h *)
@@ -637,7 +659,8 @@ Qed.
 
 (* ---------- Example: 7 oracles (F = 2), destination 9 (f = 1), sources 1 (f = 2), 2 (f = 1), 3 (f = 1) ----------
    chain 1: five oracles report root A (2*2+1 = 5: agreed); chain 2: two values with 3 and 3 votes (conflict, left out);
-   chain 3: only two votes (under-supported, left out). *)
+   chain 3: only two votes (under-supported, left out); off-ramp next of chain 1: four votes for 10, agreed at the
+   destination's 2*1+1 = 3 (fixes/F26.patch; at chain 1's own 2*2+1 = 5 it was left out). *)
 Definition ex_rmn0 : rmn_cfg := mkRmn 0 true true [] 0 0 true.
 Definition ex_fch : list (N * Z) := [(1%N, 2%Z); (2%N, 1%Z); (3%N, 1%Z); (9%N, 1%Z)].
 Definition ex_rootA : root_t := (1, 7, (10, 20), 100)%N.
@@ -659,7 +682,7 @@ Proof. apply valid_inputb_sound. vm_compute. reflexivity. Qed.
 
 Example ex_consensus :
   get_consensus 2 9 ex_aos =
-  Ok (mkCons [(1%N, ex_rootA)] [(1, 20)]%N [] [] [(1%N, 2%Z); (2%N, 1%Z); (3%N, 1%Z); (9%N, 1%Z)]).
+  Ok (mkCons [(1%N, ex_rootA)] [(1, 20)]%N [(1, 10)]%N [] [(1%N, 2%Z); (2%N, 1%Z); (3%N, 1%Z); (9%N, 1%Z)]).
 Proof. vm_compute. reflexivity. Qed.
 
 (* without validation the one-vote theorem is false: one oracle listing a root three times makes it "agreed" alone *)
@@ -678,4 +701,61 @@ Proof.
   split; [vm_compute; reflexivity|]. split; [vm_compute; reflexivity|].
   intros o [ob [Hi Hg]]. cbn in Hi.
   destruct Hi as [Hi|[Hi|[Hi|[Hi|[Hi|[]]]]]]; inversion Hi; subst; try reflexivity; cbn in Hg; contradiction.
+Qed.
+
+(* ---------- F26: before fixes/F26.patch the off-ramp number of source chain k was agreed at 2*f_k+1 ----------
+   although only destination readers report it and up to f_dest of them may be Byzantine. 10 oracles, F = 3,
+   destination 9 with f = 3 (all ten read it), source 1 with f = 1; B = {7,8,9}, |B| = f_dest.
+   (a) B alone gets a number agreed: the honest oracles' off-ramp reads fail this round, 7,8,9 report 999;
+   (b) B blocks the honest agreement: 0..6 (2*f_dest+1 oracles) report 10, 7,8,9 report 999 — two values reach 3.
+   The repaired function leaves (a) out and agrees 10 in (b). *)
+Definition f26_fch : list (N * Z) := [(1%N, 1%Z); (9%N, 3%Z)].
+Definition f26_roles : roles_t := [(1, [0;1;2;3]); (9, [0;1;2;3;4;5;6;7;8;9])]%N.
+Definition f26_known : list N := [0;1;2;3;4;5;6;7;8;9]%N.
+Definition f26_obs (off : list (N * N)) : obs := mkObs [] [] off ex_rmn0 f26_fch.
+Definition f26_aos (honest byz : list (N * N)) : list aobs :=
+  [ (0, f26_obs honest); (1, f26_obs honest); (2, f26_obs honest); (3, f26_obs honest); (4, f26_obs honest);
+    (5, f26_obs honest); (6, f26_obs honest); (7, f26_obs byz); (8, f26_obs byz); (9, f26_obs byz) ]%N.
+
+Theorem offramp_key_f_unfixed_refuted :
+  exists F dest roles known k fd B aos_a aos_b,
+    NoDup B /\ (length B <= Z.to_nat fd)%nat /\
+    valid_input false roles known dest aos_a /\ valid_input false roles known dest aos_b /\
+    (* (a) an off-ramp number all of whose reporters are in B is agreed *)
+    (exists c, get_consensus_unfixed F dest aos_a = Ok c /\ alookup dest (c_fchain c) = Some fd /\
+               alookup k (c_offramp c) = Some 999%N /\
+               forall o v, reported offramp_kv aos_a o k v -> In o B) /\
+    (exists c, get_consensus F dest aos_a = Ok c /\ alookup k (c_offramp c) = None) /\
+    (* (b) 2*fd+1 oracles outside B report 10, only B says otherwise, and nothing is agreed *)
+    (exists H, NoDup H /\ length H = Z.to_nat (2 * fd + 1) /\
+               forall o, In o H -> ~ In o B /\ reported offramp_kv aos_b o k 10%N) /\
+    (forall o v, reported offramp_kv aos_b o k v -> v <> 10%N -> In o B) /\
+    (exists c, get_consensus_unfixed F dest aos_b = Ok c /\ alookup dest (c_fchain c) = Some fd /\
+               alookup k (c_offramp c) = None) /\
+    (exists c, get_consensus F dest aos_b = Ok c /\ alookup k (c_offramp c) = Some 10%N).
+Proof.
+  exists 3%Z, 9%N, f26_roles, f26_known, 1%N, 3%Z, [7;8;9]%N,
+         (f26_aos [] [(1, 999)]%N), (f26_aos [(1, 10)]%N [(1, 999)]%N).
+  split; [apply nodupb_NoDup; vm_compute; reflexivity|]. split; [vm_compute; lia|].
+  split; [apply valid_inputb_sound; vm_compute; reflexivity|].
+  split; [apply valid_inputb_sound; vm_compute; reflexivity|].
+  split.
+  { eexists. split; [vm_compute; reflexivity|]. split; [vm_compute; reflexivity|]. split; [vm_compute; reflexivity|].
+    intros o v [ob [Hi Hg]]. cbn in Hi.
+    destruct Hi as [E|[E|[E|[E|[E|[E|[E|[E|[E|[E|[]]]]]]]]]]]; inversion E; subst o ob; cbn in Hg;
+      try contradiction; cbn; tauto. }
+  split; [eexists; split; vm_compute; reflexivity|].
+  split.
+  { exists [0;1;2;3;4;5;6]%N. split; [apply nodupb_NoDup; vm_compute; reflexivity|]. split; [vm_compute; reflexivity|].
+    intros o Ho. split.
+    - cbn in Ho |- *. intros Hb. destruct Ho as [<-|[<-|[<-|[<-|[<-|[<-|[<-|[]]]]]]]];
+        destruct Hb as [Hb|[Hb|[Hb|[]]]]; discriminate.
+    - exists (f26_obs [(1, 10)]%N). cbn in Ho |- *.
+      destruct Ho as [<-|[<-|[<-|[<-|[<-|[<-|[<-|[]]]]]]]]; tauto. }
+  split.
+  { intros o v [ob [Hi Hg]] Hne. cbn in Hi.
+    destruct Hi as [E|[E|[E|[E|[E|[E|[E|[E|[E|[E|[]]]]]]]]]]]; inversion E; subst o ob; cbn in Hg;
+      destruct Hg as [Hg|[]]; inversion Hg; subst v; try congruence; cbn; tauto. }
+  split; [eexists; split; [vm_compute; reflexivity|split; vm_compute; reflexivity]|].
+  eexists; split; vm_compute; reflexivity.
 Qed.
